@@ -320,17 +320,18 @@ func writeFile(fset *token.FileSet, af *ast.File, name string) {
 }
 
 var shimOf = map[string]string{
-	"os":        "os",
-	"io/ioutil": "ioutil",
-	"fmt":       "fmt",
-	"log":       "log",
-	"net/http":  "http",
-	"os/exec":   "exec",
-	"os/signal": "signal",
-	"math/rand": "rand",
-	"time":      "time",
-	"context":   "context",
-	"sync":      "sync",
+	"os":            "os",
+	"io/ioutil":     "ioutil",
+	"fmt":           "fmt",
+	"log":           "log",
+	"net/http":      "http",
+	"os/exec":       "exec",
+	"os/signal":     "signal",
+	"path/filepath": "filepath",
+	"math/rand":     "rand",
+	"time":          "time",
+	"context":       "context",
+	"sync":          "sync",
 	// "flag" is per binary, see below
 }
 
